@@ -132,7 +132,7 @@ func c12SearchDriver(s *propSpec, b *build, a *agg) {
 	}
 
 	args := append(baseArgs(s, b), "-ref", refPath)
-	seqRuns, concRuns := int64(6000), int64(320)
+	seqRuns, concRuns := int64(6000), int64(480)
 	if tier == "thorough" {
 		seqRuns, concRuns = 3000000, 120000
 	}
